@@ -19,6 +19,7 @@ pub enum ProcessMessageError { ValidationError(ValidationError), Other }
 // TLS decoding of the MLS message (uninterpreted)
 pub uninterp spec fn mls_bytes_decode_ok(b: Seq<u8>) -> bool;      // both decoding steps succeed
 pub uninterp spec fn mls_bytes_content_type(b: Seq<u8>) -> ContentType;
+pub uninterp spec fn mls_bytes_group_id(b: Seq<u8>) -> GroupId;          // the group the MLS message names
 impl MlsMessageIn {
     pub uninterp spec fn src(&self) -> Seq<u8>;
     #[verifier::external_body]
@@ -27,7 +28,7 @@ impl MlsMessageIn {
     { unimplemented!() }
     #[verifier::external_body]
     pub fn try_into_protocol_message(self) -> (r: Result<ProtocolMessage, ProtocolMessageError>)
-        ensures r is Ok ==> r->Ok_0.ct() == mls_bytes_content_type(self.src()), r is Err ==> !mls_bytes_decode_ok(self.src())
+        ensures r is Ok ==> r->Ok_0.ct() == mls_bytes_content_type(self.src()) && r->Ok_0.gid() == mls_bytes_group_id(self.src()), r is Err ==> !mls_bytes_decode_ok(self.src())
     { unimplemented!() }
 }
 impl ProtocolMessage {
